@@ -477,14 +477,6 @@ def judge_rules(report, cases, results, lines, findings, pid, nontrivial, check_
                     report.known['C05-F4'] = report.known.get('C05-F4', 0) + 1
                     report.known_text['C05-F4'] = fnd['C05-F4']['what']
                     continue
-                if key.startswith('on') and 'C04-F1' in fnd and case.get('nested_sole') and case.get('pre_take') is not None \
-                        and obs == [] and \
-                        all(sorted(r) == want for r in res['impl'].get(key.replace('on', 'off', 1), {'outs': []})['outs']):
-                    # known finding C04-F1: a predicate-form variable without a domain as the ONLY condition of a rule,
-                    # result cache on, after an abandoned evaluation: nothing is returned from then on
-                    report.known['C04-F1'] = report.known.get('C04-F1', 0) + 1
-                    report.known_text['C04-F1'] = fnd['C04-F1']['what']
-                    continue
                 what = f'conclusions differ from the ripple-down-rules reference ({key}, evaluation {ev + 1})'
                 report.violations.append((what, {'what': what, 'case': case, 'case_sexp': rule_sexp(case),
                                                  'expected': want, 'observed': obs, 'model': model,
